@@ -180,6 +180,17 @@ pub fn c16(cx: &Cx) -> i32 {
         if let Some(c) = hand.first() { rep.analysed.insert("recursive SCC (measure: group nesting depth)".into(), json!(c)); }
         rep.sample(json!({"panic sites": by_class}));
     }
+    // ---------------- interpreter rule: constant indexing in the impl-item helpers is covered by the checked length
+    {
+        use crate::eval::{St, Ty, Val};
+        let ix = &cx.ix;
+        if let Some(f) = crate::misc::find_fn(ix, &|g| g.self_ty.is_none() && crate::misc::sig_text(g).contains("&PathSegment") && crate::misc::sig_text(g).contains("->Type")) {
+            let ev = mk_ev(ix);
+            let outs = ev.call_fn(St::new(), &f, None, vec![Val::Sym { ty: Ty::Named("PathSegment".into(), vec![]), path: "s".into() }, Val::Sym { ty: Ty::Named("Type".into(), vec![]), path: "self_ty".into() }]);
+            let ung = crate::misc::unguarded_indexing(&outs);
+            rep.check(ung.is_empty() && !outs.is_empty(), "ES-no-panic-path", &f.qual, "index-in-range", &format!("a constant index is not covered by the length established on its path (index out of bounds panics): {ung:?}"), &format!("{}:{} {}", f.file, f.line, f.qual), json!({}));
+        }
+    }
     // ---------------- interpreter rule: no role path reaches a panic
     let mut runs = 0;
     let dead_arms = proved_dead_arms(cx);
